@@ -518,6 +518,7 @@ func (c *Client) HandshakingState(e *am.Event) {
 		}
 
 		// finalize
+		verifSyncAt(c, "rpc.client.handshaked")
 		c.Mach.EvAdd1(e, ssC.HandshakeDone, Pass(&A{
 			Id:        resp.Serialized.ID,
 			MachTime:  resp.Serialized.Time,
@@ -721,6 +722,8 @@ func (c *Client) GetKind() Kind {
 // honor [ClientOpts.SyncMutations] and only returns clock values (so can be
 // used to skip mutation syncing within a period).
 func (c *Client) Sync() am.Time {
+	verifSyncAt(c, "rpc.client.sync.enter")
+	defer verifSyncAt(c, "rpc.client.sync.exit")
 	c.Mach.Add1(ssC.MetricSync, nil)
 
 	// call rpc
@@ -738,6 +741,7 @@ func (c *Client) Sync() am.Time {
 	}
 
 	// process
+	verifSyncAt(c, "rpc.client.sync.beforeSet", resp)
 	c.clockSet(resp.Time, resp.QueueTick, resp.MachTick)
 
 	return c.NetMach.machTime
@@ -810,6 +814,7 @@ func (c *Client) updateStatesSchema(resp *MsgSrvHello) {
 	for i, name := range c.trackedStates {
 		c.trackedStateIdxs[i] = slices.Index(netMach.stateNames, name)
 	}
+	verifSyncAt(c, "rpc.client.hello")
 }
 
 // clockFromUpdate returns after-values of:
@@ -894,6 +899,7 @@ func (c *Client) clockSet(mTime am.Time, qTick uint64, machTick uint32) {
 
 	c.log("clockUpdate full OK t%d q%d", sum, qTick)
 	c.netMachInt.Lock()
+	verifSyncAt(c, "rpc.client.clockSet", mTime, qTick, machTick)
 	c.netMachInt.UpdateClock(mTime, qTick, machTick)
 }
 
@@ -901,8 +907,10 @@ func (c *Client) clockSet(mTime am.Time, qTick uint64, machTick uint32) {
 // of a clock drift
 func (c *Client) clockUpdate(update *MsgSrvUpdate, queueLocked bool) bool {
 	if c.Mach.Not1(ssC.HandshakeDone) {
+		verifSyncAt(c, "rpc.client.dropped", update)
 		return true
 	}
+	verifSyncAt(c, "rpc.client.beforeApply", update)
 
 	// may be locked by clockUpdateMutations
 	if !queueLocked {
@@ -951,6 +959,8 @@ func (c *Client) clockUpdate(update *MsgSrvUpdate, queueLocked bool) bool {
 		}
 
 		// request full sync
+		verifSyncAt(c, "rpc.client.applied", update, false, mTime, qTick,
+			machTick)
 		netMach.clockMx.Unlock()
 		return false
 	}
@@ -963,6 +973,8 @@ func (c *Client) clockUpdate(update *MsgSrvUpdate, queueLocked bool) bool {
 	}
 
 	c.log("clockUpdate diff OK t%d q%d", mTime.Sum(nil), qTick)
+	verifSyncAt(c, "rpc.client.applied", update, true, mTime, qTick,
+		machTick)
 	// will unlock itself TODO pass mutType?
 	c.netMachInt.UpdateClock(mTime, qTick, machTick)
 
@@ -972,6 +984,7 @@ func (c *Client) clockUpdate(update *MsgSrvUpdate, queueLocked bool) bool {
 // clockUpdateMutations is like clockUpdate, but uses granular mutations.
 func (c *Client) clockUpdateMutations(msgs *MsgSrvUpdateMuts) bool {
 	if c.Mach.Not1(ssC.HandshakeDone) {
+		verifSyncAt(c, "rpc.client.dropped", msgs)
 		return true
 	}
 
@@ -1369,6 +1382,7 @@ func (c clientNetMachConn) Call(
 			return false
 		}
 		// support mutations
+		verifSyncAt(c.rpc, "rpc.client.beforeReplyApply", mutResp)
 		synced := false
 		if c.rpc.SyncAllMutations {
 			synced = c.rpc.clockUpdateMutations(mutResp.Mutations)
